@@ -22,13 +22,29 @@ Proof. exact ops_ok_true. Qed.
 Print Assumptions C19_operation_requests.
 
 (* ring configurations with a zero, non-power-of-two or over-maximum size, or with the log flag but no log address,
-   are refused before any ioctl is issued (specification function the real backends are compared with) *)
-Theorem C19_invalid_ring_refused : forall backend q mx sz fl d u av hl lg acked,
+   are refused before any ioctl is issued (specification function the real backends are compared with), whatever the
+   guest memory layout *)
+Theorem C19_invalid_ring_refused : forall backend q mx sz fl d u av hl lg acked lay,
   let mx' := mx mod 65536 in let sz' := sz mod 65536 in
   (mx' <? sz') || (sz' =? 0) || negb (pow2 sz') = true ->
-  kern_expected backend "set_vring_addr" [q; mx; sz; fl; d; u; av; hl; lg] [] acked = obs [] [] (VS "InvalidQueue").
+  kern_expected backend "set_vring_addr" [q; mx; sz; fl; d; u; av; hl; lg] [] acked lay = obs [] [] (VS "InvalidQueue").
 Proof.
-  intros backend q mx sz fl d u av hl lg acked mx' sz' H. unfold kern_expected.
+  intros backend q mx sz fl d u av hl lg acked lay mx' sz' H. unfold kern_expected.
   cbn [String.eqb Ascii.eqb Bool.eqb nth]. fold mx' sz'. rewrite H. reflexivity.
 Qed.
 Print Assumptions C19_invalid_ring_refused.
+
+(* an IOTLB message written in the v1 or the v2 UAPI layout (offsets and type words from the installed header) parses
+   back to the same five values, for every 64-bit address / size and every type and permission byte *)
+Theorem C19_iotlb_roundtrip : forall v2 iova size uaddr perm ty,
+  iotlb_fields_fit iova size uaddr perm ty -> ty <> 0 ->
+  iotlb_parse v2 (iotlb_img v2 iova size uaddr perm ty) = okv (VL [VN iova; VN size; VN uaddr; VN perm; VN ty]).
+Proof. exact iotlb_roundtrip_ok. Qed.
+Print Assumptions C19_iotlb_roundtrip.
+
+(* ... and the empty type is refused *)
+Theorem C19_iotlb_empty_refused : forall v2 iova size uaddr perm,
+  iotlb_fields_fit iova size uaddr perm 0 ->
+  iotlb_parse v2 (iotlb_img v2 iova size uaddr perm 0) = VS "InvalidIotlbMsg".
+Proof. exact iotlb_empty_refused. Qed.
+Print Assumptions C19_iotlb_empty_refused.
